@@ -40,6 +40,9 @@ class SimDisk:
         data = self.volatile.get(path, self.durable.get(path))
         if data is None:
             raise FileNotFoundError(path)
+        if isinstance(data, bytes):
+            # stored bytes: decoded as the builtin text mode does (UTF-8, errors while reading)
+            return io.TextIOWrapper(io.BytesIO(data), encoding="utf-8", newline=None)
         # universal newlines like the builtin text mode
         return io.StringIO(data, newline=None)
 
